@@ -278,9 +278,10 @@ class Main(pipeline.Stream):
 
     def _version(self, c):
         """1 or 2 for the listed versions under a 1.0 / 2.0 configuration, else None (statement silent)"""
-        if c["cfg"] not in ("default", "v1", "nojc", "v1nojc"):
+        if c["cfg"] not in ("default", "v1", "nojc", "v1nojc", "v2int"):
             return None
-        if not any(V.same(c["version"], v) for v in LISTED_VERSIONS):
+        # the integers 1 and 2 select 1.0 and 2.0 like the floats they equal (Config(version=2), dump(..., version=2))
+        if not any(V.same(c["version"], v) for v in LISTED_VERSIONS + [1, 2]):
             return None
         v = c["version"] if c["version"] else CFGS[c["cfg"]][0]
         return 2 if float(v) >= 2 else 1
@@ -488,5 +489,99 @@ class Main(pipeline.Stream):
                 yield case[:i] + [dict(c, api="dump")] + case[i + 1:]
 
 
+class Reentrant(pipeline.Stream):
+    """oracle only (the model's params are plain data): building a message runs user code -- the class translator calls the
+    serialisation method of a bean in the params -- and that code may itself build another message (log it, forward it).  Each
+    message still carries its own id, method and params: nothing of a message is kept in shared state while it is built.  No
+    thread is involved."""
+    name = "reentrant"
+    model_imports = "PayloadObs"
+    case_type = "unit"
+    check_fn = "(fun _ => true)"
+
+    def setup(self):
+        import jsonrpclib.jsonrpc as J
+        import jsonrpclib.config as C
+        self.J, self.C = J, C
+
+    def gen(self, tier, rng):
+        cases = []
+        for ver, outer_id, inner_id, depth in itertools.product([1.0, 2.0], ["outer-id", 0, None], ["inner-id", 7, None], [1, 2]):
+            for kind in ("request", "notify", "response"):
+                cases.append({"ver": ver, "outer": outer_id, "inner": inner_id, "depth": depth, "kind": kind})
+        return cases
+
+    def run_impl(self, case):
+        J = self.J
+        cfg = self.C.Config(version=case["ver"])
+        inner_texts = []
+
+        class Hook(object):
+            def __init__(self, level):
+                self.level = level
+
+            def _serialize(self):
+                # user code run by the translator: builds another message of the same version
+                p = [Hook(self.level + 1)] if self.level < case["depth"] else [self.level]
+                inner_texts.append(J.dumps(p, "inner%d" % self.level, rpcid=case["inner"], version=case["ver"], config=cfg))
+                return [self.level], {}
+
+        def build():
+            if case["kind"] == "response":
+                return J.dumps(Hook(1), methodresponse=True, rpcid=case["outer"] if case["outer"] is not None else "r", version=case["ver"], config=cfg)
+            return J.dumps([Hook(1), "tail"], "outer", rpcid=case["outer"], version=case["ver"], config=cfg,
+                           notify=True if case["kind"] == "notify" else None)
+        try:
+            text = build()
+            return {"ok": True, "outer": json.loads(text), "inner": [json.loads(t) for t in inner_texts]}
+        except Exception as ex:       # noqa
+            return {"ok": False, "error": "%s: %s" % (type(ex).__name__, ex)}
+
+    def oracle(self, case, obs):
+        if not obs["ok"]:
+            return ("C14:reentrant-dump-raised", obs["error"])
+        o = obs["outer"]
+        msgs = [("outer", o)] + [("inner", m) for m in obs["inner"]]
+        if case["kind"] == "response":
+            want = case["outer"] if case["outer"] is not None else "r"
+            if o.get("id") != want or "result" not in o:
+                return ("C14:response-id", "response built while another message was built inside its result: %r, id given %r" % (o, want))
+        elif case["kind"] == "notify":
+            if o.get("method") != "outer" or ("id" in o and o["id"] is not None):
+                return ("C14:notification-has-id", "notification %r" % (o,))
+        else:
+            if o.get("method") != "outer":
+                return ("C14:request-method", "outer request %r" % (o,))
+            if case["outer"] is not None and o.get("id") != case["outer"]:
+                return ("C14:supplied-id-not-used", "outer request built with rpcid=%r came out as %r (inner messages were built with rpcid=%r "
+                        "while its params were converted)" % (case["outer"], o, case["inner"]))
+        for m in obs["inner"]:
+            if case["inner"] is not None and m.get("id") != case["inner"]:
+                return ("C14:supplied-id-not-used", "inner request built with rpcid=%r came out as %r" % (case["inner"], m))
+        gen_ids = [m.get("id") for (w, m) in msgs if "method" in m and m.get("id") is not None and
+                   ((w == "outer" and case["outer"] is None and case["kind"] == "request") or (w == "inner" and case["inner"] is None))]
+        if len(set(map(str, gen_ids))) != len(gen_ids):
+            return ("C14:generated-id-not-fresh", "generated ids of messages built inside one another: %r" % (gen_ids,))
+        return None
+
+    def encode(self, case, obs):
+        return None
+
+    def nontrivial(self, case, obs):
+        return True
+
+    def kind(self, case, obs):
+        return "reentrant / v%s / %s / depth %d" % (case["ver"], case["kind"], case["depth"])
+
+    def describe(self, case, obs):
+        return {"case": case, "observed": obs}
+
+    def to_replay(self, case):
+        return dict(case)
+
+    def from_replay(self, j):
+        return dict(j)
+
+
 def streams():
-    return [Main()]
+    return [Main(), Reentrant()]
